@@ -174,18 +174,29 @@ func runHasNextCase(c *Ctx, kind string, opts int, pattern string, input []rune)
 
 // a tokenizer that is re-configured AFTER it was used: its tokens for the next input equal those of a new tokenizer that
 // was given the same configuration before its first use (nothing looked up for the earlier input may survive)
-func runReconfigHistory(c *Ctx, kind string, prev []rune, ops []cfgOp, input []rune) {
+func runReconfigHistory(c *Ctx, kind string, prev []rune, ops []cfgOp, input []rune, pre ...cfgOp) {
 	ss := make([]string, len(ops))
 	for i, o := range ops {
 		ss[i] = o.String()
 	}
 	op := fmt.Sprintf("rhist %s %s %s %s", kind, runesStr(prev), strings.Join(ss, "~"), runesStr(input))
+	if len(pre) > 0 {
+		// a configuration that was already there when the first text was read
+		ps := make([]string, len(pre))
+		for i, o := range pre {
+			ps[i] = o.String()
+		}
+		op += " " + strings.Join(ps, "~")
+	}
 	c.record(op, len(prev) > 0 && len(input) > 0)
 	c.count("reconfigured-after-use")
 	var got []tk
 	st := safeCallT(5*time.Second, func() string {
 		t := newTokenizer(kind).(cfgTokzr)
 		setOpts(t, 0)
+		for _, o := range pre {
+			applyCfgOp(t, o)
+		}
 		t.TokenizeBuffer(string(prev))
 		for _, o := range ops {
 			applyCfgOp(t, o)
@@ -193,7 +204,7 @@ func runReconfigHistory(c *Ctx, kind string, prev []rune, ops []cfgOp, input []r
 		got = conv(t.TokenizeBuffer(string(input)))
 		return ""
 	})
-	fresh, st2 := tokenizeCfg(kind, 0, ops, input)
+	fresh, st2 := tokenizeCfg(kind, 0, append(append([]cfgOp(nil), pre...), ops...), input)
 	if st != "" || st2 != "" {
 		if st != st2 {
 			c.fail(Failure{Kind: "oracle", Op: op, Impl: st, Spec: st2, Note: "re-configured tokenizer ended with " + st + ", a new one with the same configuration with " + st2})
@@ -205,7 +216,7 @@ func runReconfigHistory(c *Ctx, kind string, prev []rune, ops []cfgOp, input []r
 			Note: fmt.Sprintf("after tokenizing %q the tokenizer was re-configured (%s); for %q it gives %s, a new tokenizer with the same configuration gives %s", string(prev), strings.Join(ss, " "), string(input), showTks(got), showTks(fresh))})
 		return
 	}
-	c.model(tokcLine(kind, 0, ops, input), showTks(got), "model")
+	c.model(tokcLine(kind, 0, append(append([]cfgOp(nil), pre...), ops...), input), showTks(got), "model")
 }
 
 // the same scanner object handed to the tokenizer again after a rewind: a second pass, a pass after an abandoned one
@@ -244,6 +255,20 @@ func runSameScanner(c *Ctx, kind string, opts int, input []rune) {
 }
 
 func propReconfig(c *Ctx) {
+	// symbols registered in two stages with the table in use in between: a longer symbol first, one of its prefixes later
+	sym := func(s string) cfgOp { return cfgOp{k: "Y", v: []rune(s), typ: 7} }
+	for _, k := range []string{"g", "e"} {
+		for _, st := range []struct {
+			pre, later []cfgOp
+		}{{[]cfgOp{sym("<!--")}, []cfgOp{sym("<!")}}, {[]cfgOp{sym("<!--")}, []cfgOp{sym("<!-")}}, {[]cfgOp{sym("=:=:")}, []cfgOp{sym("=:"), sym("=:=")}}, {[]cfgOp{sym("->>>")}, []cfgOp{sym("->")}},
+			{[]cfgOp{sym("<!"), sym("<!--")}, []cfgOp{sym("<!-")}}} {
+			for _, prev := range []string{"<!-x", "a <!- b <! c", "=:=1 =:x", "->> ->", "x", "<!--"} {
+				for _, in := range []string{"<!-x", "<!x", "a<!-- <!- <! <", "=:=:=:=", "=:1", "->>>->>->", "<!"} {
+					runReconfigHistory(c, k, []rune(prev), st.later, []rune(in), st.pre...)
+				}
+			}
+		}
+	}
 	sets := [][]cfgOp{
 		{{k: "D", lo: '#', hi: '#', x: "s"}},
 		{{k: "D", lo: 'a', hi: 'z', x: "0"}},
@@ -388,6 +413,19 @@ func replayC05(c *Ctx, op string) {
 				}
 			}
 			runReconfigHistory(c, f[1], parseRunes(f[2]), ops, parseRunes(f[4]))
+		} else if len(f) == 6 {
+			var ops, pre []cfgOp
+			for _, s := range strings.Split(f[3], "~") {
+				if o, ok := parseCfgOp(s); ok {
+					ops = append(ops, o)
+				}
+			}
+			for _, s := range strings.Split(f[5], "~") {
+				if o, ok := parseCfgOp(s); ok {
+					pre = append(pre, o)
+				}
+			}
+			runReconfigHistory(c, f[1], parseRunes(f[2]), ops, parseRunes(f[4]), pre...)
 		}
 	case "tokc":
 		replayTokC(c, op)
